@@ -172,3 +172,19 @@ Definition store_lit (single : bool) (body : list N) : option (list N) :=
   if single then store_sq body else store_dq body.
 Definition literal_value_of (single : bool) (body : list N) : option cssstring :=
   if single then literal_value_sq body else literal_value body.
+
+(* ---- SassString::evaluate, an interpolation inside a QUOTED string: the text of the (unquoted) value is
+   re-escaped character by character; `carry` = a hex escape was just written and a separating space is
+   pending (cleared by the next character, which gets the space only when it is a hex digit or a tab).
+   char::is_alphanumeric is only modelled for ASCII: None = a character outside the model. ---- *)
+Definition ascii_kept (c : N) : bool := ((33 <=? c) && (c <=? 126)) || (c =? 32) || (c =? 9) || (c =? 65533).
+Fixpoint interp_escape (l : list N) (carry : bool) : option (list N) :=
+  match l with
+  | [] => Some []
+  | c :: r =>
+      let sp := if carry && (is_hex c || (c =? 9)) then [32] else [] in
+      if c =? 92 then option_map (fun t => sp ++ [92; 92] ++ t) (interp_escape r false)
+      else if ascii_kept c then option_map (fun t => sp ++ c :: t) (interp_escape r false)
+      else if is_control c then option_map (fun t => sp ++ 92 :: hex_of_N c ++ t) (interp_escape r true)
+      else None
+  end.
